@@ -10,7 +10,7 @@ import math
 from . import gen
 
 PROT_T = ('ASP', 'GLU', 'HIS', 'CYS', 'TYR', 'LYS', 'ARG')            # titratable side chains
-PROT_N = ('SER', 'THR', 'ASN', 'GLN', 'TRP')                        # non-titratable partners
+PROT_N = ('SER', 'THR', 'ASN', 'GLN', 'TRP', 'ASNO', 'GLNO')                        # non-titratable partners
 TERM = ('N+', 'C-')
 LIG_T = ('MGU', 'AMI', 'NH4', 'MAM', 'DMA', 'TMA', 'PYR', 'ACT', 'MSH', 'MPO')     # titratable ligand groups
 LIG_N = ('ACN', 'CFM', 'CCL', 'MOH', 'DME', 'ACO', 'NMA', 'ANL')
